@@ -146,7 +146,7 @@ def build_op(e, has_two):
         'r.Segmented': lambda: R.Segmented(lambda xs: [len(xs) // 2] if len(xs) > 1 else []),
         'r.PMX': lambda: R.PartiallyMapped(seed=s),
         'r.Order': lambda: R.Order(seed=s),
-        'r.Cycle': R.Cycle,
+        'r.Cycle': lambda: R.Cycle(seed=s),
     }[op]()
     if not has_two:
       return ev.Identity()
